@@ -1,2 +1,51 @@
-(* Props/C14.v — placeholder while the proofs are being written *)
-From Ford Require Import Base.Str Lex.Fixed.
+(* Props/C14.v — property C14: fixed-form sources document the same as their free-form equivalent.
+   Statements only; proofs in Lex/FixedProofs.v (and Lex/ReaderProofs.v for the reader). *)
+From Ford Require Import Base.Str Lex.Quote Lex.Reader Lex.ReaderSpec Lex.ReaderProofs Lex.Fixed
+  Lex.FixedSpec Lex.FixedProofs.
+
+(* The converter turns every fixed-form file of the modelled layout — labels in columns 1-5, '0' or
+   blank in column 6 of an initial line, any other non-blank character in column 6 of continuation
+   lines, C/c/*/! comment lines and short blank lines anywhere (also between continuation lines),
+   any number of statements and continuation lines — line for line into the free-form file
+   [free_of f], whatever the length-limit setting. *)
+Theorem C14_fixed_as_free : forall ll f,
+  Forall wf_item f ->
+  map chomp (convert_to_free ll (render_fixed f)) = render_file (free_of f).
+Proof. exact fixed_as_free. Qed.
+Print Assumptions C14_fixed_as_free.
+
+(* ... hence the statements read from it are those of that free-form file: the ';'-separated
+   parts of the joined statement texts (composition with C02_file_statements). *)
+Theorem C14_fixed_statements : forall ll f,
+  Forall wf_item f -> Forall item_ok (free_of f) ->
+  read_all default_cfg (map chomp (convert_to_free ll (render_fixed f)))
+  = ROk (flat_map stmts_of (file_texts (free_of f))).
+Proof. exact fixed_statements. Qed.
+Print Assumptions C14_fixed_statements.
+
+(* Full statement over the general layout (inline '!' comments on statement lines, blank lines of
+   any width inside a statement): FALSE of the code as it is. *)
+Definition C14_statement : Prop := statement_C14.
+
+Theorem C14_partial : forall ll f,
+  Forall wf_item f ->
+  read_all default_cfg (map chomp (convert_to_free ll (render_fixedG (to_G f))))
+  = read_all default_cfg (render_file (free_ofG (to_G f))).
+Proof. exact partial_C14. Qed.
+Print Assumptions C14_partial.
+
+Theorem C14_refuted_inline_comment : ~ C14_statement.
+Proof. exact refuted_inline_comment. Qed.
+Print Assumptions C14_refuted_inline_comment.
+
+Theorem C14_refuted_blank6 : ~ C14_statement.
+Proof. exact refuted_blank6. Qed.
+Print Assumptions C14_refuted_blank6.
+
+Theorem C14_refuted_literal_split :
+  read_all default_cfg (map chomp (convert_to_free true
+     [s "      s = 'ab" ++ [nl]; s "     &cd'" ++ [nl]]))
+  = ROk [s "s = 'ab cd'"]
+  /\ s "s = 'ab cd'" <> s "s = 'ab" ++ spaces 58 ++ s "cd'".
+Proof. exact refuted_literal_split. Qed.
+Print Assumptions C14_refuted_literal_split.
